@@ -7,6 +7,7 @@ REPO=${2:-/repo}
 TGT=${3:-/verif/.cache/target}
 V=/verif
 export CARGO_NET_OFFLINE=true
+export CARGO_INCREMENTAL=0
 SYSROOT=$(rustc +nightly --print sysroot)
 ( cd $V/driver && cargo build --release --offline >/dev/null 2>$V/.cache/driver-build.log ) || { cat $V/.cache/driver-build.log >&2; exit 2; }
 DRV=$V/driver/target/release/ckb-facts
